@@ -228,3 +228,24 @@ package crypto
 //@   loop ForEach.RangeWhile.1 invariant [count] *l == cnt(b, rangeindex@ForEach.RangeWhile.0 + 1) + popbelow(b[rangeindex@ForEach.RangeWhile.0 + 1], rangeint_iter) && 0 <= rangeint_iter && rangeint_iter < 8 && samearr(bf.data, b) && len(bf.data) == len(b) && 0 <= rangeindex@ForEach.RangeWhile.0 + 1 && rangeindex@ForEach.RangeWhile.0 + 1 < len(b)
 //@   use loop ForEach.RangeWhile.0 head :: cnt_nonneg(b, rangeindex + 1)
 //@   use loop ForEach.RangeWhile.1 head :: cnt_nonneg(b, rangeindex@ForEach.RangeWhile.0 + 1)
+
+// ---- iteration: RangeWhile calls f exactly on members, in strictly ascending order (hence
+// each at most once), and stops after the first call that returns false. The calls are
+// logged on the ghost trace cb: (callback, id, result).
+//@ func (Bitfield).RangeWhile property C19
+//@   mode bytebv
+//@   opt callbacks trace
+//@   requires f != nil && len(bf.data) <= 268435456
+//@   ensures [members] forall i int :: old(tracelen(cb)) <= i && i < tracelen(cb) ==> mem(bf, traceat(cb, 1, i))
+//@   ensures [ascending] forall i int, j int :: old(tracelen(cb)) <= i && i < j && j < tracelen(cb) ==> traceat(cb, 1, i) < traceat(cb, 1, j)
+//@   ensures [stops-at-false] forall i int :: old(tracelen(cb)) <= i && i < tracelen(cb) - 1 ==> traceat(cb, 2, i) == 1
+//@   ensures [grows] tracelen(cb) >= old(tracelen(cb))
+//@   loop 0 invariant [len] tracelen(cb) >= old(tracelen(cb))
+//@   loop 0 invariant [members] forall i int :: old(tracelen(cb)) <= i && i < tracelen(cb) ==> mem(bf, traceat(cb, 1, i)) && traceat(cb, 1, i) < 1 + 8 * (rangeindex + 1)
+//@   loop 0 invariant [ascending] forall i int, j int :: old(tracelen(cb)) <= i && i < j && j < tracelen(cb) ==> traceat(cb, 1, i) < traceat(cb, 1, j)
+//@   loop 0 invariant [alltrue] forall i int :: old(tracelen(cb)) <= i && i < tracelen(cb) ==> traceat(cb, 2, i) == 1
+//@   loop 1 invariant [len] tracelen(cb) >= old(tracelen(cb)) && 0 <= rangeint_iter && rangeint_iter < 8 && 0 <= rangeindex@0 + 1 && rangeindex@0 + 1 < len(bf.data)
+//@   loop 1 invariant [members] forall i int :: old(tracelen(cb)) <= i && i < tracelen(cb) ==> mem(bf, traceat(cb, 1, i)) && traceat(cb, 1, i) < 1 + 8 * (rangeindex@0 + 1) + rangeint_iter
+//@   loop 1 invariant [ascending] forall i int, j int :: old(tracelen(cb)) <= i && i < j && j < tracelen(cb) ==> traceat(cb, 1, i) < traceat(cb, 1, j)
+//@   loop 1 invariant [alltrue] forall i int :: old(tracelen(cb)) <= i && i < tracelen(cb) ==> traceat(cb, 2, i) == 1
+//@   modifies trace(cb)
